@@ -40,7 +40,7 @@ def correspond(ctx):
         sp = rng.random() < 0.4
         Gm, Am = (sparse(G), sparse(A)) if sp else (G, A)
         hasQS = bool(dims['q'] or dims['s'])
-        useP = rng.random() < 0.5
+        useP = rng.random() < 0.5; junkP = rng.random() < 0.5
         B = matrix([PR.rint(rng, 2) for _ in range(n * n)], (n, n)); P = B.T * B if useP else None
         names = ['ldl', 'ldl2', 'chol'] + ([] if hasQS else ['chol2']) + ([] if useP else ['qr'])
         facs = {}
@@ -62,7 +62,14 @@ def correspond(ctx):
                     matrix(PR.sym_vector(rng, dims), (N, 1), 'd'))
             for nm, fac in facs.items():
                 try:
-                    f = fac(W, P) if useP else fac(W)
+                    if useP and junkP:
+                        # only the lower triangle of H / P is documented to be read: hand the factory a copy with arbitrary values above the diagonal
+                        Pj = +P
+                        for jj in range(n):
+                            for ii in range(jj): Pj[ii, jj] = float(rng.randint(-9, 9))
+                        f = fac(W, Pj)
+                    else:
+                        f = fac(W, P) if useP else fac(W)
                 except ArithmeticError:
                     continue
                 for rep in range(rng.randint(1, 2)):
